@@ -52,6 +52,7 @@ def draw_cfg(r, profile):
         "spelling": "simple",
         "faults": {},
         "dir_component": r.random() < 0.3,
+        "p_uniform": r.choice([0.0, 0.0, 0.5, 0.9]),
         "cpp": r.random() < 0.3,
     }
     if profile == "c18":
@@ -76,6 +77,14 @@ def draw_cfg(r, profile):
         c["cbi_config"] = r.random() < 0.35
         c["n_plat"] = r.choice([1, 2, 3, 4])
         c["tus_max"] = r.choice([2, 3, 4])
+        c["n_src"] = r.choice([2, 3, 4])
+        c["p_uniform"] = r.choice([0.0, 0.5, 0.9, 1.0])
+        c["p_define"] = r.choice([0.1, 0.2, 0.3])
+        c["p_include"] = r.choice([0.25, 0.4])
+        c["p_once"] = r.choice([0.0, 0.3, 0.6, 0.9])
+        c["p_sigdef"] = r.choice([0.0, 0.5, 0.8])
+        c["p_probe"] = r.choice([0.3, 0.6])
+        c["max_entries_per_platform"] = r.choice([2, 3, 4])
     if profile == "c14":
         c["n_plat"] = r.choice([2, 3, 4, 5])
         c["excludes"] = r.random() < 0.2
@@ -185,7 +194,12 @@ class Gen:
             elif k < 0.30 + pd:
                 out += self.define_items()
             elif k < 0.30 + pd + pi:
-                out += self.include_item(headers)
+                inc = self.include_item(headers)
+                out += inc
+                if inc and r.random() < self.cfg.get("p_probe", 0.3):
+                    # make the macro effect of the inclusion observable in the includer
+                    m = r.choice(SRC_MACROS + SRC_MACROS + FLAG_MACROS + NUM_MACROS)
+                    out.append(["cond", [["ifdef", m, [["code", 1]]], ["else", None, [["code", 1]]]]])
             elif k < 0.30 + pd + pi + 0.06:
                 out.append(r.choice([["blank"], ["comment"]]))
             elif depth < self.cfg["depth"]:
@@ -237,6 +251,13 @@ class Gen:
             for path in h["paths"]:
                 tag = path.replace("/", "_").replace(".", "_").upper()
                 body = [["code", 1]] + self.items(0, later, [r.randint(1, cfg["budget"])])
+                if r.random() < cfg.get("p_sigdef", 0.0):
+                    # a header that provides a feature macro other files test after including it
+                    body.insert(1, self.define_items()[0] if r.random() < 0.5 else
+                                ["define", r.choice(SRC_MACROS), None])
+                    m = body[1]
+                    if m[0] == "define" and m[1] in SRC_MACROS:
+                        m[2] = self.src_vals[m[1]]
                 if r.random() < cfg["p_resens"]:
                     seen = f"SEEN_{tag}"
                     body = body + [["cond", [["ifdef", seen, [["code", 1]]]]],
@@ -274,9 +295,13 @@ class Gen:
         for pi in range(cfg["n_plat"]):
             name = f"p{pi}" if r.random() < 0.7 else f"plat{pi}"
             ents = []
+            self._plat_base = None
             for s in srcs:
                 for _ in range(r.choice([0, 1, 1, 2][: cfg["tus_max"] + 1])):
                     ents.append(self.entry(s, inc_pool, hdrs))
+            if cfg.get("max_entries_per_platform"):
+                r.shuffle(ents)
+                ents = ents[: cfg["max_entries_per_platform"]]
             if not ents and r.random() < 0.8:
                 ents.append(self.entry(r.choice(srcs), inc_pool, hdrs))
             ents = self.add_db_faults(ents)
@@ -289,6 +314,19 @@ class Gen:
 
     # ----------------------------------------------------------------------------- entries
     def sem_entry(self, src, inc_pool, hdrs):
+        r, cfg = self.r, self.cfg
+        # real compilation databases mostly repeat one flag set per platform
+        base = getattr(self, "_plat_base", None)
+        if base is not None and r.random() < cfg.get("p_uniform", 0.0):
+            sem = dict(base)
+            sem["src"] = src
+            return sem
+        sem = self._fresh_sem(src, inc_pool, hdrs)
+        if base is None:
+            self._plat_base = sem
+        return sem
+
+    def _fresh_sem(self, src, inc_pool, hdrs):
         r, cfg = self.r, self.cfg
         defs = []
         for m in FLAG_MACROS:
